@@ -29,7 +29,8 @@ def run(ctx):
         acc = [p for p in ps if "ServerCertVerified::assertion()" in path_sig(p)[1]]
         rej = [p for p in ps if p.leaf[0] == "return" and "assertion" not in path_sig(p)[1]]
         ctx.check("C10-R1", "one accepting path", len(acc) == 1 and path_sig(acc[0])[1] == "return Result::Ok(ServerCertVerified::assertion())", "verify_server_cert has %d accepting paths" % len(acc), where(f))
-        NOW = r"ASN1Time::new\(Option::expect\(Option::and_then\(Result::ok\(<T as TryInto<U>>::try_into\(UnixTime::as_secs\(now\)\)\),closure:.*?\),[^()]*\)\)"
+        SECS = r"Result::ok\(<T as TryInto<U>>::try_into\(UnixTime::as_secs\(now\)\)\)"
+        NOW = r"ASN1Time::new\(Option::expect\(Result::ok\(OffsetDateTime::from_unix_timestamp\(ok\(%s\)\)\),[^()]*\)\)" % SECS
         VAL = r"TbsCertificate::validity\(ok\(<X509Certificate as FromDer<X509Error>>::from_der\((<CertificateDer as AsRef<\[u8\]>>::as_ref\(end_entity\)|end_entity)\)\)\.1(\.tbs_certificate)?\)"
         guards = {
             "not before": r"^!PartialOrd::lt\(%s,TbsCertificate::validity\(.*from_der\(.*\)\)\.1\)\.not_before\)$" % NOW,
@@ -37,9 +38,10 @@ def run(ctx):
             "validity period computable": r"^<ASN1Time as Sub>::sub\((TbsCertificate::validity\(.*from_der\(.*end_entity.*\)\)\.1\)|ok\(.*from_der\(.*end_entity.*\)\)\.1\.validity)\.not_after,(TbsCertificate::validity\(.*from_der\(.*end_entity.*\)\)\.1\)|ok\(.*from_der\(.*end_entity.*\)\)\.1\.validity)\.not_before\) ok$",
             "validity period <= 14 days": r"^PartialOrd::le\(ok\(<ASN1Time as Sub>::sub\(.*\.not_after,.*\.not_before\)\),(ServerHashVerification::SELF_MAX_VALIDITY|SignedDuration\{1209600,)",
             "key algorithm == id-ecPublicKey": r"^!PartialEq::ne\(TbsCertificate::public_key\(.*\)\.algorithm\.algorithm,OID_KEY_TYPE_EC_PUBLIC_KEY\)$",
-            "curve parameters present": r"^Option::map\(Option::as_ref\(TbsCertificate::public_key\(.*\)\.algorithm\.parameters\),closure:.*\) ok$",
-            "curve parameters are an OID": r"^ok\(Option::map\(Option::as_ref\(.*\.algorithm\.parameters\),closure:.*\)\) ok$",
-            "curve == prime256v1": r"^<Oid as PartialEq>::eq\(ok\(ok\(Option::map\(.*\)\)\),OID_EC_P256\)$",
+            "now representable as i64 seconds": r"^%s ok$" % SECS,
+            "curve parameters present": r"^Option::as_ref\(TbsCertificate::public_key\(.*\)\.algorithm\.parameters\) ok$",
+            "curve parameters are an OID": r"^Any::as_oid\(ok\(Option::as_ref\(.*\.algorithm\.parameters\)\)\) ok$",
+            "curve == prime256v1": r"^<Oid as PartialEq>::eq\(ok\(Any::as_oid\(ok\(Option::as_ref\(.*\.algorithm\.parameters\)\)\)\),OID_EC_P256\)$",
             "pinned hash of the leaf": r"^BTreeSet::contains\(self\.hashes,Sha256Digest\(<D as Digest>::digest\((<CertificateDer as AsRef<\[u8\]>>::as_ref\(end_entity\)|end_entity)\)\)\)$",
         }
         if acc:
@@ -55,12 +57,8 @@ def run(ctx):
         # every other return is an error
         bad = [path_sig(p)[1] for p in rej if not re.match(r"^return (Result::Err\(|Err\(from\()", path_sig(p)[1])]
         ctx.check("C10-R1", "all other paths reject", not bad and len(rej) >= 9, "verify_server_cert has a non-error return besides the asserting one: %s" % bad, where(f))
-    # the `parameters` closure is `any.as_oid()`
-    cl = [g for g in A.fn_list if g.path.startswith(V + "verify_server_cert::{closure#") and g.body]
-    oid = [g for g in cl if any("Any::as_oid(" in e or "::as_oid(" in e for p in nonpanic(walk(g)) for e in event_strs(p))]
-    ctx.check("C10-R1", "parameters closure is as_oid()", len(oid) == 1, "the curve-parameter closure no longer calls Any::as_oid()", where(f))
-    tcl = [g for g in cl if any("OffsetDateTime::from_unix_timestamp(" in e for p in nonpanic(walk(g)) for e in event_strs(p))]
-    ctx.check("C10-R1", "`now` is the verifier's UnixTime", len(tcl) == 1, "`now` is no longer derived from the UnixTime argument via from_unix_timestamp", where(f))
+    # (that the curve parameters go through Any::as_oid() and that `now` comes from the verifier's UnixTime argument via
+    # from_unix_timestamp is part of the guard expressions above: the closures are applied, not looked up by name)
 
     ctx.rule("C10-R2", "SELF_MAX_VALIDITY == 14 days")
     c = A.const("wtransport::tls::client::ServerHashVerification::SELF_MAX_VALIDITY")
